@@ -2,6 +2,8 @@ import MemcVerif.Model.Handler
 import MemcVerif.Generated.Tables
 import MemcVerif.Model.Skip
 import MemcVerif.Model.Conn
+import MemcVerif.Model.Cmd
+import MemcVerif.Model.Ops
 /-!
 # The model's tables are the source's tables
 
@@ -82,6 +84,28 @@ theorem tie_size_tests :
     Holds Gen.sizeTests (fun ops => ops.all (fun op =>
       [1024, 1048576].all (fun l => [l - 1, l, l + 1].all (fun b => opRefuses op b l == modelRefuses b l))) = true) := by
   decide
+
+/-- a store holding the counter `n` under key `[107]` -/
+def counterStore (n : Nat) : MemStore := (MemStore.init.set 0 [107] (Record.new (toDec n) 0 0 0)).1
+
+/-- an `add_delta` result as plain data: `some (cas, value)`, or `none` for 'not found', `some (0, code)` for another error -/
+def deltaOut (r : Except CacheError DeltaResult) : Option (Nat × Nat) :=
+  match r with
+  | .ok d => some (d.cas, d.value)
+  | .error .notFound => none
+  | .error e => some (0, e.code)
+
+/-- the rules of `add_delta` as the source states them are the model's: the expiration value the source tests before creating
+    is the one (and, next to it, the only one) for which the model refuses to create; where the source wraps, the model wraps
+    (2^64−1 + 1 = 0); where the source saturates, the model saturates (3 − 5 = 0) -/
+theorem tie_delta_rules :
+    Holds Gen.deltaRules (fun r =>
+      r.2.1 = 1 ∧ r.2.2.1 = 1 ∧ r.2.2.2 = 1 ∧
+      deltaOut (Cmd.addDelta memOps MemStore.init 0 (Meta.new 0 0 r.1) [107] 1 5 true).2 = none ∧
+      deltaOut (Cmd.addDelta memOps MemStore.init 0 (Meta.new 0 0 (r.1 - 1)) [107] 1 5 true).2 = some (1, 5) ∧
+      deltaOut (Cmd.addDelta memOps (counterStore 18446744073709551615) 0 (Meta.new 0 0 0) [107] 1 5 true).2 = some (2, 0) ∧
+      deltaOut (Cmd.addDelta memOps (counterStore 3) 0 (Meta.new 0 0 0) [107] 5 9 false).2 = some (2, 0)) := by
+  decide +kernel
 
 theorem tie_version :
     Holds Gen.version (fun v => v = VERSION) := by decide
